@@ -64,6 +64,7 @@ class Spec:
         st.reset = set()        # streams the application reset
         st.ended = set()       # streams whose peer side has ended: no further DATA, the windows stay observable
         st.closed = False      # the peer has sent GOAWAY: every window-changing call raises now, and changes nothing
+        st.cl = {}              # sid -> bytes still allowed by the content-length the peer announced
         st.gone = {}            # their last advertised stream window (the library may still adjust it)
         st.nstreams = 0
         st.resv = set()         # client role: promised streams whose response HEADERS have not arrived (windows exist, no DATA yet)
@@ -74,7 +75,7 @@ class Spec:
     def fingerprint(self, st):
         return fingerprint(st.h.conn, st.Ac, st.acked, tuple(st.pending), tuple(sorted(st.As.items())),
                            tuple(sorted(st.unacked.items())), tuple(sorted(st.reset)), tuple(sorted(st.gone.items())), st.nstreams, st.dead,
-                           tuple(sorted(st.resv)), st.npush, tuple(sorted(st.ended)), st.closed)
+                           tuple(sorted(st.resv)), st.npush, tuple(sorted(st.ended)), st.closed, tuple(sorted(st.cl.items())))
 
     def actions(self, st):
         if st.dead:
@@ -87,6 +88,10 @@ class Spec:
         acts.append("rxgoaway")
         if st.nstreams < self.max_streams:
             acts.append("open")
+            if not st.cl and st.acked < 65535:       # (only where the stream window is the smaller one: elsewhere the connection window decides first)
+                # a message that announces its length: a frame that overruns the window AND the announced length is a
+                # flow-control error all the same
+                acts.append("opencl")
         if self.client and st.npush < 1 and any(s % 2 and s not in st.ended for s in st.As):
             acts.append("rxpush:%d" % min(s for s in st.As if s % 2 and s not in st.ended))
         for sid in sorted(st.resv):
@@ -96,7 +101,15 @@ class Spec:
                 for inc in ("1", "max", "over"):
                     acts.append("incr:%d:%s" % (sid, inc))
                 continue
-            if sid not in st.ended:
+            if sid in st.cl:
+                # only frames whose verdict does not depend on the length rules: one byte while the announced length
+                # allows it, and the overrun
+                if sid not in st.ended:
+                    if st.cl[sid] >= 1:
+                        acts.append("data:%d:1:n" % sid)
+                    if min(st.Ac, st.As[sid]) >= 2:
+                        acts.append("data:%d:A+1:n" % sid)
+            elif sid not in st.ended:
                 for L in ("1", "A", "A+1"):
                     for p in ("n", "3", "es"):      # es: unpadded, carrying END_STREAM - charged like any other DATA
                         acts.append("data:%d:%s:%s" % (sid, L, p))
@@ -158,15 +171,18 @@ class Spec:
 
         parts = lab.split(":")
         out = parts[0]
-        if lab == "open":
+        if lab in ("open", "opencl"):
             st.nstreams += 1
             sid = 2 * st.nstreams - 1
+            extra = [(b"content-length", b"2")] if lab == "opencl" else []
+            if lab == "opencl":
+                st.cl[sid] = 2          # the peer's message announces a body of two bytes
             if self.client:
                 o = h.api("send_headers", sid, H.ni(H.REQ_POST))
                 if o.kind == "ok":
-                    o = h.rx([wire.headers(sid, sb(H.RESP))], ("headers", sid, False, False))
+                    o = h.rx([wire.headers(sid, sb(H.RESP + extra))], ("headers", sid, False, False))
             else:
-                o = h.rx([wire.headers(sid, sb(H.REQ_POST))], ("headers", sid, False, False))
+                o = h.rx([wire.headers(sid, sb(H.REQ_POST + extra))], ("headers", sid, False, False))
             if o.kind != "ok":
                 bad("open-failed", "opening stream %d failed: %s" % (sid, o.brief()))
                 st.dead = True
@@ -223,6 +239,8 @@ class Spec:
                     st.dead = True
                     return Step("data-rejected", viols, prune=True)
                 st.Ac -= L
+                if sid in st.cl:
+                    st.cl[sid] -= L
                 if not on_reset:
                     st.As[sid] -= L
                     st.unacked[sid] += L
